@@ -129,6 +129,7 @@ class State:
         return v
 
 
+FEAS_RLIMIT = int(__import__("os").environ.get("PYVC_FEAS_RLIMIT", "400000"))
 _quant_cache: dict = {}
 
 
@@ -247,13 +248,16 @@ class Exec:
         self.n_feas += 1
         s = z3.Solver()
         budget = self.feas_timeout_ms * (2 if deep else 1)
-        s.set("timeout", budget)
+        s.set("timeout", budget * 3)
+        # a deterministic resource limit decides the answer, the wall-clock limit is only a safety net:
+        # verdicts must not depend on how busy the machine is
+        s.set("rlimit", FEAS_RLIMIT * (2 if deep else 1))
         if deep:
             s.add(*bm.AXIOMS)
             s.add(*pc)
         else:
             s.add(*[p for p in pc if not _has_quantifier(p)])
-        r = hard_check(s, budget / 1000.0)
+        r = hard_check(s, budget * 3 / 1000.0)
         if deep and r == z3.unknown:
             r = cvc5_check(s, 4.0)
         return r != z3.unsat
